@@ -533,6 +533,10 @@ func glClassify(v *GlVar, e ast.Expr, stack []ast.Node, flag func(*GlVar, ast.No
 				flag(v, p, callee+" on it")
 				return
 			}
+			// the built-in append / copy only READ their later arguments: append(dst, v...) copies v's elements
+			if _, builtin := p.Fun.(*ast.Ident); builtin && (callee == "append" || callee == "copy") {
+				return
+			}
 		}
 		if glRefLike(v.Kind) && !path {
 			if !glReadOnlyCallees[callee] {
